@@ -44,7 +44,7 @@ ALPHABET = [
     ["load {i} Ed Xd"],                # exports d as the head of a three-item section (data+bss+data)
     ["load {i} Cf Df"],                # malformed: import and definition of the same name
     ["ext f 1"], ["ext d 2"], ["redef 1"],
-    ["link interp -", "call"], ["link interp -"], ["link gen -", "call"],
+    ["link interp -", "call"], ["link interp -"], ["link gen 0", "call"],
     ["link null fd"], ["link lazy fg", "call"], ["call"],
 ]
 
@@ -119,7 +119,8 @@ def rand_history(rng, maxlen=50):
             iface = iface[rng.below(100)]
             q = rng.below(100)
             if q < 75: names = allnames
-            elif q < 80: names = "-"
+            elif q < 78: names = "-"
+            elif q < 80: names = "0"
             else: names = "".join(c for c in allnames if rng.chance(1, 2)) or "-"
             out.append("link %s %s" % (iface, names))
             if iface != "null" and rng.chance(3, 5): out.append("call")
@@ -202,7 +203,8 @@ def classify(hist, j, impl, model, spec, tie_ok):
         t = l.split()
         if t[0] == "load":
             loads["m" + t[1]] = t[2:]; pending.append("m" + t[1])
-        elif t[0] == "link" and k < j or (t[0] == "link" and k == j):
+        elif t[0] == "link":
+            if k < len(impl) and k < j and not impl[k].startswith("ok"): continue   # a failed link changes nothing here
             if t[1] == "null":
                 if k < j: null_linked.update(pending)
             else:
@@ -229,24 +231,37 @@ def classify(hist, j, impl, model, spec, tie_ok):
     return sorted(sigs)[0]
 
 
+IMPL_CTX = {}
+
+
 def assert_only(hist, j, line):
     """assert-enabled flavour only: `assert (item->data == NULL)` (MIR_link, first loop) fires when a module
     holding an expr-data item is linked a second time after a NULL-interface link (MIR_interp left its
     func_desc in item->data).  The NDEBUG build, which is what CMake ships, behaves as the model says
     (checked by the NDEBUG flavour on the same histories), so this is not alarmed on (DESIGN section 6)."""
     if not line.startswith("crash") or j >= len(hist) or not hist[j].startswith("link"): return False
-    pend_expr, nulled = False, False
-    for l in hist[:j]:
+    outs = IMPL_CTX.get("impl", [])
+    pend_expr, nulled, failed = False, False, False
+    for k, l in enumerate(hist[:j]):
         t = l.split()
-        if t[0] == "load" and any(d[0] in "ZY" for d in t[2:]): pend_expr = True
+        o = outs[k] if k < len(outs) else ""
+        if t[0] == "load" and o.startswith("ok") and any(d[0] in "ZY" for d in t[2:]): pend_expr = True
         elif t[0] == "link":
-            if t[1] == "null": nulled = nulled or pend_expr
-            else: pend_expr, nulled = False, False
-    return pend_expr and nulled
+            if o.startswith("err MIR_undeclared_op_ref_error"):
+                # same assert after a FAILED link: the aborted first loop left `item->data = 1` (inline flag)
+                # on the functions it had already simplified, and the func_desc of interpreted expr
+                # functions; the NDEBUG flavour simply simplifies them again
+                failed = True
+            elif o.startswith("ok"):
+                failed = False
+                if t[1] == "null": nulled = nulled or pend_expr
+                else: pend_expr, nulled = False, False
+    return (pend_expr and nulled) or failed
 
 
 def judge(hist, impl, model, spec):
     """-> (tie_ok, first_tie_diff, spec_dev or None)"""
+    IMPL_CTX["impl"] = impl
     for j, l in enumerate(impl):
         if assert_only(hist, j, l):
             stats["assert_only_null_link_expr"] = stats.get("assert_only_null_link_expr", 0) + 1
@@ -270,7 +285,7 @@ def judge(hist, impl, model, spec):
                    "signature": classify(hist, j, impl, model, spec, tie_ok)}
             break
     else:
-        if len(impl) > len(spec) and not (spec and (spec[-1].startswith("err") or spec[-1] == "any")):
+        if len(impl) > len(spec) and not (spec and (spec[-1] == "any" or (spec[-1].startswith("err") and "undeclared_op_ref" not in spec[-1]))):
             dev = {"line": len(spec), "impl": impl[len(spec)], "spec": "<none>", "signature": "C13:error-mismatch"}
     return tie_ok, tie_diff, dev
 
@@ -310,7 +325,11 @@ def history_stats(hist, impl):
         if j < len(impl) and not impl[j].startswith("ok"):
             e = impl[j].split()[1] if impl[j].startswith("err") else impl[j]
             stats["impl_errors"][e] = stats["impl_errors"].get(e, 0) + 1
-        if not okline: break
+        if not okline:
+            if t[0] == "link" and j < len(impl) and impl[j] == "err MIR_undeclared_op_ref_error":
+                stats["continued_after_failed_link"] = stats.get("continued_after_failed_link", 0) + 1
+                continue
+            break
         if t[0] == "load":
             ds = t[2:]
             for d in ds: stats["decl_kinds"][d[0]] = stats["decl_kinds"].get(d[0], 0) + 1
@@ -433,7 +452,8 @@ ck.assumptions += [
     "entry functions are small, so the inline growth limits of process_inlines never apply; exported functions have 1 insn",
     "a call that reaches a thunk still redirected to undefined_interface is matched as {SIGSEGV, MIR_call_op_error}: "
     "the real code calls undefined_interface with a garbage ctx",
-    "histories end at the first error reported through the error function (which longjmps)",
+    "histories end at the first error reported through the error function (which longjmps), except that they "
+    "continue after a failed MIR_link (undeclared_op_ref): relink, later loads and calls are compared too",
     "assert-enabled flavour: abort in `assert (item->data == NULL)` when a module with an expr-data item is linked "
     "again after a NULL-interface link is not compared (the NDEBUG flavour runs the same histories and agrees)",
     "non-function definitions of every kind (data/bss/ref/expr, single or head of a 2-3 item section) are one "
